@@ -1443,6 +1443,10 @@ func (eval Evaluator) Rescale(op0, opOut *rlwe.Ciphertext) (err error) {
 	level := op0.Level()
 	ringQ := eval.parameters.RingQ().AtLevel(level)
 
+	// The receiver takes the degree of the input (its level is set once the division is done,
+	// since the receiver can be the input itself)
+	opOut.Resize(op0.Degree(), opOut.Level())
+
 	for i := range opOut.Value {
 		ringQ.DivRoundByLastModulusNTT(op0.Value[i], eval.buffQ[0], opOut.Value[i])
 	}
